@@ -138,8 +138,11 @@ def get_exponentiated_qubit_operator_circuit(qubit_op, time=1., variational=Fals
                 if isinstance(control, int) or len(control) == 1:
                     exp_pauli_word_gates += [Gate("PHASE", target=control, parameter=-np.real(coef), is_variational=variational)]
                 else:
-                    exp_pauli_word_gates += [Gate("CPHASE", target=0, control=control, parameter=-2*np.real(coef), is_variational=variational)]
-                    exp_pauli_word_gates += [Gate("CRZ", target=0, control=control, parameter=2*np.real(coef), is_variational=variational)]
+                    # The pair CPHASE(-2c) CRZ(2c) applies the phase exp(-ic) whatever the state of its target:
+                    # any qubit that is not one of the controls can serve as target.
+                    phase_target = min(q for q in range(len(control) + 1) if q not in control)
+                    exp_pauli_word_gates += [Gate("CPHASE", target=phase_target, control=control, parameter=-2*np.real(coef), is_variational=variational)]
+                    exp_pauli_word_gates += [Gate("CRZ", target=phase_target, control=control, parameter=2*np.real(coef), is_variational=variational)]
 
     return_value = (Circuit(exp_pauli_word_gates), phase) if return_phase else Circuit(exp_pauli_word_gates)
     return return_value
